@@ -76,8 +76,10 @@ struct Sub {
     outs: Vec<Box<[u8]>>,
 }
 
-/// Bare queue with a well-behaved caller (it only presents tokens it owns, with the buffers it
-/// submitted under them).
+/// Bare queue with a well-behaved caller: it presents tokens it owns, with the buffers it
+/// submitted under them. Like the library's own fixed token-to-buffer callers (`OwningQueue`, the
+/// input driver) it may also present the token the used ring names when it does not own it at the
+/// moment, with the buffers it last submitted under that token, which it keeps alive.
 pub fn hostile_queue() {
     let c: QCfg = draw_qcfg(7);
     hostile_world();
@@ -90,6 +92,13 @@ pub fn hostile_queue() {
     }
     let mut p = Pair { t, q };
     let mut out: Vec<Sub> = Vec::new();
+    // buffers of completed submissions, by token (the most recent one per token)
+    let mut retired: std::collections::BTreeMap<u16, Sub> = std::collections::BTreeMap::new();
+    // Presenting a token that is not outstanding is only meaningful for a caller with a fixed
+    // token-to-buffer mapping, which needs one descriptor per chain (otherwise the token may name
+    // the middle of somebody else's chain and the caller's buffers cannot match): indirect
+    // queues, or runs that only submit single buffers.
+    let one_desc_chains = c.indirect || flip(1, 3);
     for _ in 0..(10 + choose(120)) {
         if violated() {
             break;
@@ -98,6 +107,7 @@ pub fn hostile_queue() {
             0 | 1 => {
                 let n_in = choose(3) as usize;
                 let n_out = if n_in == 0 { 1 + choose(2) as usize } else { choose(3) as usize };
+                let (n_in, n_out) = if one_desc_chains && !c.indirect { if n_in > 0 { (1, 0) } else { (0, 1) } } else { (n_in, n_out) };
                 let ins: Vec<Box<[u8]>> = (0..n_in).map(|_| vec![0x11u8; 1 + choose(40) as usize].into_boxed_slice()).collect();
                 let mut outs: Vec<Box<[u8]>> = (0..n_out).map(|_| vec![0x22u8; 1 + choose(40) as usize].into_boxed_slice()).collect();
                 let r = guarded(|| {
@@ -143,6 +153,27 @@ pub fn hostile_queue() {
                 };
                 let tok = match peek {
                     Some(t) if out.iter().any(|s| s.token == t) => t,
+                    Some(t) if one_desc_chains && retired.contains_key(&t) && flip(1, 2) => {
+                        // the used ring names a token that is not outstanding: presented with the
+                        // buffers last submitted under it; must be refused without side effects
+                        probe("stale_token_presented");
+                        let r = guarded(|| {
+                            let s = retired.get_mut(&t).unwrap();
+                            let i2: Vec<&[u8]> = s.ins.iter().map(|b| &b[..]).collect();
+                            let mut o2: Vec<&mut [u8]> = s.outs.iter_mut().map(|b| &mut b[..]).collect();
+                            // SAFETY: the buffers submitted under this token, still alive.
+                            unsafe { p.q.pop_used(t, &i2, &mut o2) }
+                        });
+                        match r {
+                            Ok(Ok(len)) => violation("hostile-state-corruption", "pop_used", format!("pop_used({t}) returned Ok({len}) for a token that is not outstanding")),
+                            Ok(Err(_)) => {}
+                            Err((m, l)) => {
+                                oplog(|| format!("pop_used({t}) (not outstanding) panicked: {m} at {l}"));
+                                break;
+                            }
+                        }
+                        continue;
+                    }
                     _ => match out.first() {
                         Some(s) => s.token,
                         None => continue,
@@ -159,7 +190,11 @@ pub fn hostile_queue() {
                 match r {
                     Ok(Ok(len)) => {
                         oplog(|| format!("pop_used({tok}) -> Ok({len})"));
-                        out.remove(i);
+                        let s = out.remove(i);
+                        if let Some(old) = retired.insert(tok, s) {
+                            // (kept alive: a hostile device may still name it)
+                            std::mem::forget(old);
+                        }
                         nontrivial();
                     }
                     Ok(Err(_)) => {}
@@ -174,6 +209,7 @@ pub fn hostile_queue() {
     }
     // buffers of chains the device may still reference are leaked rather than freed
     std::mem::forget(out);
+    std::mem::forget(retired);
     let _ = guarded(move || drop(p));
 }
 
@@ -296,7 +332,13 @@ impl TransportFn<()> for DriverRun {
                         }
                     },
                     AnyDriver::Console(c) => {
-                        if flip(1, 2) {
+                        if flip(1, 4) {
+                            // formatted output (core::fmt::Write) and the plain transmit calls
+                            let _ = core::fmt::Write::write_str(c, "formatted output");
+                            let _ = c.send(b'z');
+                            let _ = c.emergency_write(b'!');
+                            None
+                        } else if flip(1, 2) {
                             let l = BufRead::fill_buf(c).map(|b| b.len()).unwrap_or(0);
                             Some((l, 4096))
                         } else {
@@ -357,10 +399,14 @@ pub fn hostile_drivers() {
     let kind = KINDS[choose(11) as usize];
     let tk = TKINDS[choose(8) as usize];
     hostile_world();
-    let mut feats = F_VERSION_1 | F_INDIRECT * choose(2) | F_EVENT_IDX * choose(2) | F_ACCESS_PLATFORM * choose(2) | kind.implemented_device_bits();
+    // device-specific features: usually all the crate implements, sometimes a subset (error paths
+    // must not fall back on mechanisms that were not negotiated; judged by C08's borrowed batch)
+    let dev_bits = if flip(1, 3) { kind.implemented_device_bits() & choose(u64::MAX) } else { kind.implemented_device_bits() };
+    let mut feats = F_VERSION_1 | F_INDIRECT * choose(2) | F_EVENT_IDX * choose(2) | F_ACCESS_PLATFORM * choose(2) | dev_bits;
     if tk.legacy() {
         feats &= !F_VERSION_1;
     }
+    with(|w| w.cfg.gate_config_fields = true);
     // configuration space: arbitrary bytes (allocation-size fields of the sound device capped)
     let mut cfg = kind.default_config();
     if flip(2, 3) {
